@@ -307,3 +307,15 @@ def run_history(lib: Any, doc_node: Any, ops: list[dict]) -> tuple[Any, list]:
             status.append("crash:" + type(e).__name__)
             break
     return tr, status
+
+
+def op_in_domain(rs: RefSchema, doc_plain: dict, op: dict) -> bool:
+    """Operations whose *own payload* is invalid are outside every property's domain:
+    set_node_markup that turns a leaf into a non-leaf type re-inserts an empty container (not a valid node)."""
+    if op["op"] == "set_node_markup" and op.get("type"):
+        from ..ref import resolve as RR
+
+        tgt = RR.node_at(RR.N(doc_plain, rs), op["pos"])
+        if tgt is not None and rs.leaf[tgt["t"]] and not rs.leaf[op["type"]]:
+            return False
+    return True
